@@ -73,7 +73,7 @@ def contract(cfg: Dict[str, Any], events: List[List[Any]], status: str) -> List[
         if not nested_ok:
             bad.append("WellNested")
     else:
-        if any(k != "visit" for _, k, _ in events):
+        if any(k != "visit" for _, k, x in events if x <= n):
             bad.append("WalkNoDepart")
     order_ok = True
     for e in exts:
@@ -100,6 +100,21 @@ def contract(cfg: Dict[str, Any], events: List[List[Any]], status: str) -> List[
                       and not any(visited[s] and prune[s - 1] in ("SkipSiblings", "DepartSkipSiblings", "SkipSiblingsDepartError") for s in elder))
     if any(seen("main", "visit", x) != visited[x] for x in range(1, n + 1)):
         bad.append("PruningMeans")
+    # a traversal started from inside a visit_* / depart_* method is a traversal of its own (NestedContract in Visitor.tla)
+    nest = cfg.get("nest") or {"at": 0}
+    if nest["at"]:
+        N = n + 1
+        ran = seen("main", nest["when"], nest["at"])
+        about = nest["how"] == "walkabout"
+        ok = all(len(pos.get((w, "visit", N), [])) == (1 if ran else 0) for w in whos)
+        ok = ok and all(len(pos.get((e, "depart", N), [])) == (1 if ran and about else 0) for e in exts)
+        ok = ok and len(pos.get(("main", "depart", N), [])) == (1 if ran and about and nest["prune"] not in ("SkipNode", "SkipDeparture") else 0)
+        if ran:
+            start = p("main", nest["when"], nest["at"])
+            mine = [i for i, (_, _, x) in enumerate(events) if x == N]
+            ok = ok and mine == list(range(start + 1, start + 1 + len(mine)))
+        if not ok:
+            bad.append("NestedContract")
     return bad
 
 
@@ -113,12 +128,20 @@ def run_real(cfg: Dict[str, Any]) -> Tuple[List[List[Any]], str]:
 
     n, parent, prune = cfg["n"], cfg["parent"], cfg["prune"]
 
+    nest = cfg.get("nest") or {"at": 0}
+    prune = list(prune) + [nest.get("prune", "none")]       # node n + 1: the root of the detached tree of an inner traversal
+
     class Nd:
         def __init__(self, i: int):
             self.i = i
             self.kids: List["Nd"] = []
 
-    nodes = {i: Nd(i) for i in range(1, n + 1)}
+    if cfg.get("eq") == "equal":
+        # nodes are positions in the tree: two distinct nodes may well compare (and hash) equal
+        Nd.__eq__ = lambda self, other: isinstance(other, Nd)      # type: ignore[assignment]
+        Nd.__hash__ = lambda self: 0                               # type: ignore[assignment]
+
+    nodes = {i: Nd(i) for i in range(1, n + 2)}
     for i in range(2, n + 1):
         nodes[parent[i - 1]].kids.append(nodes[i])
     events: List[List[Any]] = []
@@ -130,6 +153,8 @@ def run_real(cfg: Dict[str, Any]) -> Tuple[List[List[Any]], str]:
 
         def visit_Nd(self, ob):
             events.append(["main", "visit", ob.i])
+            if nest["at"] == ob.i and nest["when"] == "visit":
+                getattr(self, nest["how"])(nodes[n + 1])          # a traversal of its own, with this very visitor
             k = prune[ob.i - 1]
             if k == "SkipSiblingsDepartError":
                 raise self.SkipSiblings()
@@ -138,6 +163,8 @@ def run_real(cfg: Dict[str, Any]) -> Tuple[List[List[Any]], str]:
 
         def depart_Nd(self, ob):
             events.append(["main", "depart", ob.i])
+            if nest["at"] == ob.i and nest["when"] == "depart":
+                getattr(self, nest["how"])(nodes[n + 1])
             if prune[ob.i - 1] == "DepartSkipSiblings":
                 raise self.SkipSiblings()
             if prune[ob.i - 1] in ("DepartError", "SkipSiblingsDepartError"):
@@ -167,6 +194,12 @@ def run_real(cfg: Dict[str, Any]) -> Tuple[List[List[Any]], str]:
         del events[:]
         vis.extensions.add(*[mk(t) for t in order])
         vis.extensions.attach_visitor(vis)
+    elif cfg.get("hist") == "lateadd":
+        # created with an empty list; the caller adds the extensions afterwards through ITS reference to that list
+        el = V.ExtList()
+        vis = Main(el)
+        el.add(*[mk(t) for t in order])
+        el.attach_visitor(vis)
     else:
         vis = Main(V.ExtList(*[mk(t) for t in order]))
     status = "done"
@@ -309,8 +342,11 @@ CFG_ENUM = """SPECIFICATION Spec
 CONSTANTS MaxN = {maxn}
           Source = "enum"
           Modes = {{"walk", "walkabout"}}
-          Histories = {{"fresh", "rewalk"}}
+          Histories = {hists}
+          Nestings = {nestings}
+          NestedMaxPruned = {nmp}
 CONSTRAINT EmitTerminal
+INVARIANT NestedContract
 INVARIANT EnteredAtMostOnce
 INVARIANT NoEscape
 INVARIANT ExtBalanced
@@ -327,6 +363,8 @@ CONSTANTS MaxN = 0
           Source = "file"
           Modes = {}
           Histories = {}
+          Nestings = {}
+          NestedMaxPruned = 0
 CONSTRAINT EmitTerminal
 """
 
@@ -345,16 +383,22 @@ def run(ctx: Ctx) -> int:
     rng = random.Random(ctx.seed)
     maxn = 3 if ctx.quick else 4
     # ---- spec -> code
-    r = ctx.tlc("Visitor", CFG_ENUM.format(maxn=maxn), workers="auto", check=False,
+    r = ctx.tlc("Visitor", CFG_ENUM.format(maxn=maxn, hists='{"fresh", "rewalk", "lateadd"}', nestings='{"none"}', nmp=0), workers="auto", check=False,
                 coverage=ctx.quick, timeout=3000)
     if r.errors or (r.rc != 0 and not r.violated):
         raise MachineryError(f"TLC failed: {r.errors[:3]} rc={r.rc}\n" + "\n".join(r.out.splitlines()[-30:]))
+    # re-entrant traversals: a visit_* / depart_* method walks a detached tree with the same visitor
+    rn = ctx.tlc("Visitor", CFG_ENUM.format(maxn=maxn, hists='{"fresh"}', nestings='{"nested"}', nmp=1 if ctx.quick else 3), workers="auto", check=False, timeout=3000)
+    if rn.errors or (rn.rc != 0 and not rn.violated):
+        raise MachineryError(f"TLC failed (nested): {rn.errors[:3]} rc={rn.rc}\n" + "\n".join(rn.out.splitlines()[-30:]))
     ctx.exhaustive = True
-    design_violations = list(r.violated)
-    recs = r.printed
+    design_violations = list(r.violated) + list(rn.violated)
+    recs = r.printed + rn.printed
+    ctx.extra["configurations_with_an_inner_traversal"] = len(rn.printed)
     if not recs:
         raise MachineryError("TLC emitted no behaviour")
     mismatches = 0
+    equal_nodes = 0
     spec_contract_false = 0
     for rec in recs:
         cfg = rec["cfg"]
@@ -368,6 +412,18 @@ def run(ctx: Ctx) -> int:
             ctx.drift_note({"cfg": cfg, "spec": rec["events"], "real": ev, "real_status": st})
         if ctx.traces % 2500 == 1:
             ctx.sample({"cfg": cfg, "events": ev, "status": st, "contract_failed": bad})
+        # nodes are positions: the same configuration with node objects that all compare and hash equal
+        if cfg["n"] >= 2 and cfg.get("hist") == "fresh" and not cfg["nest"]["at"] and (len(cfg["exts"]) >= 2 or ctx.traces % 7 == 0) \
+                and (not ctx.quick or (ctx.traces % 3 == 0)):
+            cfg2 = {**cfg, "eq": "equal"}
+            ev2, st2 = run_real(cfg2)
+            ctx.traces += 1
+            equal_nodes += 1
+            judge(ctx, cfg2, ev2, st2, "enum-equal-nodes")
+            if ev2 != rec["events"] or st2 != rec["status"]:
+                mismatches += 1
+                ctx.drift_note({"cfg": cfg2, "spec": rec["events"], "real": ev2, "real_status": st2})
+    ctx.extra["configurations_replayed_with_equal_nodes"] = equal_nodes
     ctx.extra["enumerated_configurations"] = len(recs)
     ctx.extra["spec_vs_code_mismatches"] = mismatches
     ctx.extra["design_level_invariants_violated"] = design_violations
